@@ -47,7 +47,7 @@ NodeInit(e) ==
      t |-> [EmptyT EXCEPT !.routers = {e.routers[i] : i \in 1..Len(e.routers)}],
      pend |-> NoMsg, psrc |-> PlaceholderAddr,
      step |-> [open |-> FALSE],
-     issued |-> {}, acked |-> <<>>,
+     issued |-> {}, acked |-> <<>>, refused |-> {},
      usedpfx |-> {}, heard |-> <<>>,
      lk |-> <<>>, pendSearch |-> <<>>, sidAid |-> <<>>, closed |-> <<>>, yields |-> <<>>, started |-> <<>>,
      rounds |-> <<>>, succ |-> <<>>,
@@ -122,6 +122,8 @@ ReplyChecks(nd, m, src, rep, ln) ==
                     /\ Chk("C09", "get_peers-node-list", ln, NodeListsOK(nd, m, m.a.info_hash, rep.m.r))
                     /\ Chk("C05", "get_peers-families", ln, (4 \notin WantFams(nd, m) => Len(rep.m.r.nodes) = 0) /\ (6 \notin WantFams(nd, m) => Len(rep.m.r.nodes6) = 0))
                     /\ Chk("C05", "values-of-requester-family", ln, \A i \in 1..Len(rep.m.r.values) : rep.m.r.values[i].fam = src.fam)
+                    /\ Chk("C06", "a-refused-announce-stores-nothing", ln,
+                           \A i \in 1..Len(rep.m.r.values) : <<m.a.ih, rep.m.r.values[i]>> \notin (nd.refused \ DOMAIN nd.acked))
                     /\ Chk("C07", "values-are-exactly-the-live-announced-peers", ln, ValuesOK(nd, m.a.ih, src, rep.m.r.values)))
        ELSE Chk("C05", "errors-only-to-announce_peer-203-or-202", ln,
                 m.q = "announce_peer" /\ Has(rep.m, "e") /\ rep.m.e.code \in {202, 203})
@@ -141,6 +143,8 @@ Effects(nd, m, src, rep) ==
     THEN [nd EXCEPT !.issued = TS!H_Issue(TS!H_Prune(nd.issued, now), src.ip, rep.m.r.token, now)]
     ELSE IF m.q = "announce_peer" /\ rep.m.y = "r"
     THEN [nd EXCEPT !.acked = PS!A_Ack(PS!A_Prune(nd.acked, now), m.a.ih, Contact(m, src), now)]
+    ELSE IF m.q = "announce_peer" /\ rep.m.y = "e"
+    THEN [nd EXCEPT !.refused = @ \cup {<<m.a.ih, Contact(m, src)>>}]
     ELSE nd
 
 \* ------------------------------------------------------------------ C17
